@@ -7,6 +7,9 @@ value of the event's inputs.
 -/
 namespace Cjet.Http
 
+-- the linters walk the info trees of the large record terms below for minutes; they add nothing here
+set_option linter.all false
+
 def live1 : Cell := ⟨true, 1, 0⟩
 def gone1 : Cell := ⟨false, 1, 1⟩
 
@@ -106,27 +109,32 @@ structure InvPeer (O C : List Ref) (up : Bool) (s : St) : Prop where
   re : s.reader = if up then .frame else .headerLine
   uc : s.upgradeComplete = up
 
-structure InvDone (O C : List Ref) (acc : Bool) (s : St) : Prop where
+structure InvDone (O C : List Ref) (acc tm : Bool) (s : St) : Prop where
   ph : s.phase = .done
   fd : s.fd = if acc then gone1 else {}
   bs : s.bs = gone1 ∨ s.bs = {}
   conn : s.conn = gone1 ∨ s.conn = {}
   peer : s.peer = gone1 ∨ s.peer = {}
   rt : s.rt = gone1 ∨ s.rt = {}
-  lists : (s.connList = C ∧ s.peerList = O ∧ s.peerCount = O.length) ∨
-          (s.connList = [] ∧ s.peerList = [] ∧ s.peerCount = 0)
+  /-- `tm`: SIGTERM was seen (then the other peers and connections are gone as well) -/
+  lists : s.connList = (if tm then [] else C) ∧ s.peerList = (if tm then [] else O) ∧
+          s.peerCount = (if tm then 0 else (O.length : Int))
   fl : s.faults = []
   se : SentDone s.sent
 
-/-- The ledger invariant; `acc` = the descriptor has been accepted. -/
-inductive Inv (O C : List Ref) : Bool → St → Prop
-  | listening {s} : InvListening O C s → Inv O C false s
-  | start {s} : InvStart O C s → Inv O C true s
-  | peer {s} (up : Bool) : InvPeer O C up s → Inv O C true s
-  | done {s} (acc : Bool) : InvDone O C acc s → Inv O C acc s
+/-- The ledger invariant; `acc` = the descriptor has been accepted, `tm` = SIGTERM was seen. -/
+inductive Inv (O C : List Ref) : Bool → Bool → St → Prop
+  | listening {s} : InvListening O C s → Inv O C false false s
+  | start {s} : InvStart O C s → Inv O C true false s
+  | peer {s} (up : Bool) : InvPeer O C up s → Inv O C true false s
+  | done {s} (acc tm : Bool) : InvDone O C acc tm s → Inv O C acc tm s
 
-theorem inv_init (O C : List Ref) : Inv O C false (init O C) :=
+theorem inv_init (O C : List Ref) : Inv O C false false (init O C) :=
   .listening ⟨rfl, rfl, rfl, rfl, rfl, rfl, rfl, rfl, rfl, rfl, rfl⟩
+
+def isTerm : Event → Bool
+  | .term => true
+  | _ => false
 
 theorem sentDone_nil : SentDone [] := ⟨[], by simp, Or.inl rfl⟩
 
@@ -189,7 +197,7 @@ local macro "compute" : tactic =>
       fixed, sentDone_nil, sentDone_rc, sentDone_snoc, sentDone_snoc2, sentDone_of_all, all101_snoc, *])
 
 include hO hC in
-theorem term_listening {s : St} (h : InvListening O C s) : InvDone O C false (terminate s) := by
+theorem term_listening {s : St} (h : InvListening O C s) : InvDone O C false true (terminate s) := by
   have e1 := filter_other O hO
   have e2 := filter_not_other O hO
   have e3 := filter_not_other C hC
@@ -200,7 +208,7 @@ theorem term_listening {s : St} (h : InvListening O C s) : InvDone O C false (te
   constructor <;> simp [terminate, St.exec, apply, St.ended, sentDone_nil, e1, e2, e3]
 
 include hO hC in
-theorem term_start {s : St} (h : InvStart O C s) : InvDone O C true (terminate s) := by
+theorem term_start {s : St} (h : InvStart O C s) : InvDone O C true true (terminate s) := by
   have e1 := filter_other O hO
   have e2 := filter_not_other O hO
   have e3 := filter_not_other_snoc C hC
@@ -213,7 +221,7 @@ theorem term_start {s : St} (h : InvStart O C s) : InvDone O C true (terminate s
       St.listed, live1, gone1, sentDone_nil, e1, e2, e3]
 
 include hO hC in
-theorem term_peer {s : St} {up : Bool} (h : InvPeer O C up s) : InvDone O C true (terminate s) := by
+theorem term_peer {s : St} {up : Bool} (h : InvPeer O C up s) : InvDone O C true true (terminate s) := by
   have e1 := filter_other_snoc O hO
   have e2 := filter_not_other_snoc O hO
   have e3 := filter_not_other_snoc C hC
@@ -227,25 +235,25 @@ theorem term_peer {s : St} {up : Bool} (h : InvPeer O C up s) : InvDone O C true
   constructor <;>
     simp [terminate, closeAndFreePeer, websocketClose, freeWebsocketPeer, freeConnection, bufferedSocketClose,
       St.exec, apply, St.ended, St.need, St.cell, St.setCell, St.listed, live1, gone1, sentDone_of_all se,
-      e1, e2, e4, e5, hC] <;> try (right; omega)
+      e1, e2, e4, e5, hC] <;> try omega
 
 include hO hC in
-theorem term_done {s : St} {acc : Bool} (h : InvDone O C acc s) : InvDone O C acc (terminate s) := by
+theorem term_done {s : St} {acc tm : Bool} (h : InvDone O C acc tm s) : InvDone O C acc true (terminate s) := by
   have e1 := filter_other O hO
   have e2 := filter_not_other O hO
   have e3 := filter_not_other C hC
-  obtain ⟨ph, fd, bs, conn, peer, rt, lists, fl, se⟩ := h
+  obtain ⟨ph, fd, bs, conn, peer, rt, ⟨l1, l2, l3⟩, fl, se⟩ := h
   fields s
-  simp only at ph fd bs conn peer rt lists fl se
-  subst ph fd fl
-  rcases lists with ⟨l1, l2, l3⟩ | ⟨l1, l2, l3⟩ <;> subst l1 l2 l3 <;>
-    constructor <;>
-      simp [terminate, St.exec, apply, St.ended, e1, e2, e3, bs, conn, peer, rt, se]
+  simp only at ph fd bs conn peer rt l1 l2 l3 fl se
+  subst ph fd fl l1 l2 l3
+  cases tm <;> constructor <;>
+    simp [terminate, St.exec, apply, St.ended, e1, e2, e3, bs, conn, peer, rt, se]
 
 include hO hC in
-theorem step_listening {s : St} (h : InvListening O C s) (e : Event) : ∃ acc, Inv O C acc (step fixed s e) := by
+theorem step_listening {s : St} (h : InvListening O C s) (e : Event) :
+    ∃ acc, Inv O C acc (isTerm e) (step fixed s e) := by
   cases e with
-  | term => exact ⟨false, .done false (term_listening hO hC h)⟩
+  | term => exact ⟨false, .done false true (term_listening hO hC h)⟩
   | accept a =>
     refine ⟨true, ?_⟩
     have e5 := erase_mine C hC
@@ -255,8 +263,8 @@ theorem step_listening {s : St} (h : InvListening O C s) (e : Event) : ∃ acc, 
     subst ph fd bs conn peer rt cl pl pc fl se
     cases a
     · exact .start (by settle)
-    all_goals exact .done true (by settle)
-  | _ => exact ⟨false, by simpa [step, h.ph] using Inv.listening h⟩
+    all_goals exact .done true false (by settle)
+  | _ => exact ⟨false, by simpa [step, h.ph, isTerm] using Inv.listening h⟩
 
 set_option hygiene false in
 local macro "open_start" : tactic =>
@@ -267,13 +275,13 @@ local macro "open_start" : tactic =>
              subst ph fd bs conn peer rt cl pl pc fl se ha re))
 
 include hO hC in
-theorem step_start {s : St} (h : InvStart O C s) (e : Event) : Inv O C true (step fixed s e) := by
+theorem step_start {s : St} (h : InvStart O C s) (e : Event) : Inv O C true (isTerm e) (step fixed s e) := by
   cases e with
-  | term => exact .done true (term_start hO hC h)
+  | term => exact .done true true (term_start hO hC h)
   | startLine p f u c =>
     open_start
     cases p
-    · refine .done true ?_
+    · refine .done true false ?_
       by_cases hz : ssc = 0 <;> cases f <;> cases u <;> cases c <;> settle
     · cases u
       · refine .start ?_
@@ -283,11 +291,11 @@ theorem step_start {s : St} (h : InvStart O C s) (e : Event) : Inv O C true (ste
           cases c <;> settle
         · cases c
           · exact .peer false (by settle)
-          all_goals exact .done true (by settle)
-  | eof => open_start; exact .done true (by settle)
-  | readError => open_start; exact .done true (by settle)
-  | lineTooLong => open_start; exact .done true (by settle)
-  | _ => simpa [step, h.ph] using Inv.start h
+          all_goals exact .done true false (by settle)
+  | eof => open_start; exact .done true false (by settle)
+  | readError => open_start; exact .done true false (by settle)
+  | lineTooLong => open_start; exact .done true false (by settle)
+  | _ => simpa [step, h.ph, isTerm] using Inv.start h
 
 set_option hygiene false in
 local macro "open_peer" : tactic =>
@@ -299,13 +307,13 @@ local macro "open_peer" : tactic =>
              subst ph fd bs conn peer rt cl pl pc fl ha re uc))
 
 include hO hC in
-theorem step_headers {s : St} (h : InvPeer O C false s) (e : Event) : Inv O C true (step fixed s e) := by
+theorem step_headers {s : St} (h : InvPeer O C false s) (e : Event) : Inv O C true (isTerm e) (step fixed s e) := by
   cases e with
-  | term => exact .done true (term_peer hO hC h)
+  | term => exact .done true true (term_peer hO hC h)
   | headerLine p u w =>
     open_peer
     cases p
-    · refine .done true ?_
+    · refine .done true false ?_
       rcases w with _ | w
       · cases u <;> settle
       · cases w <;> cases u <;> settle
@@ -318,48 +326,53 @@ theorem step_headers {s : St} (h : InvPeer O C false s) (e : Event) : Inv O C tr
         rcases w with _ | w
         · settle
         · cases w <;> settle
-  | eof => open_peer; exact .done true (by settle)
-  | readError => open_peer; exact .done true (by settle)
-  | lineTooLong => open_peer; exact .done true (by settle)
-  | _ => simpa [step, h.ph] using Inv.peer false h
+  | eof => open_peer; exact .done true false (by settle)
+  | readError => open_peer; exact .done true false (by settle)
+  | lineTooLong => open_peer; exact .done true false (by settle)
+  | _ => simpa [step, h.ph, isTerm] using Inv.peer false h
 
 include hO hC in
-theorem step_ws {s : St} (h : InvPeer O C true s) (e : Event) : Inv O C true (step fixed s e) := by
+theorem step_ws {s : St} (h : InvPeer O C true s) (e : Event) : Inv O C true (isTerm e) (step fixed s e) := by
   cases e with
-  | term => exact .done true (term_peer hO hC h)
-  | wsEnd => open_peer; exact .done true (by settle)
-  | _ => simpa [step, h.ph] using Inv.peer true h
+  | term => exact .done true true (term_peer hO hC h)
+  | wsEnd => open_peer; exact .done true false (by settle)
+  | _ => simpa [step, h.ph, isTerm] using Inv.peer true h
 
 include hO hC in
-theorem step_done {s : St} {acc : Bool} (h : InvDone O C acc s) (e : Event) : Inv O C acc (step fixed s e) := by
+theorem step_done {s : St} {acc tm : Bool} (h : InvDone O C acc tm s) (e : Event) :
+    Inv O C acc (isTerm e || tm) (step fixed s e) := by
   cases e with
-  | term => exact .done acc (term_done hO hC h)
-  | _ => simpa [step, h.ph] using Inv.done acc h
+  | term => exact .done acc true (term_done hO hC h)
+  | _ => simpa [step, h.ph, isTerm] using Inv.done acc tm h
 
 include hO hC in
-/-- One step preserves the invariant; an accepted descriptor stays accepted. -/
-theorem inv_step {s : St} {acc : Bool} (h : Inv O C acc s) (e : Event) :
-    ∃ acc', (acc = true → acc' = true) ∧ Inv O C acc' (step fixed s e) := by
+/-- One step preserves the invariant; an accepted descriptor stays accepted; `tm` records SIGTERM. -/
+theorem inv_step {s : St} {acc tm : Bool} (h : Inv O C acc tm s) (e : Event) :
+    ∃ acc', (acc = true → acc' = true) ∧ Inv O C acc' (isTerm e || tm) (step fixed s e) := by
   cases h with
   | listening h =>
     obtain ⟨a, ha⟩ := step_listening hO hC h e
-    exact ⟨a, by simp, ha⟩
-  | start h => exact ⟨true, fun _ => rfl, step_start hO hC h e⟩
+    exact ⟨a, by simp, by simpa using ha⟩
+  | start h => exact ⟨true, fun _ => rfl, by simpa using step_start hO hC h e⟩
   | peer up h =>
     cases up
-    · exact ⟨true, fun _ => rfl, step_headers hO hC h e⟩
-    · exact ⟨true, fun _ => rfl, step_ws hO hC h e⟩
-  | done acc h => exact ⟨acc, id, step_done hO hC h e⟩
+    · exact ⟨true, fun _ => rfl, by simpa using step_headers hO hC h e⟩
+    · exact ⟨true, fun _ => rfl, by simpa using step_ws hO hC h e⟩
+  | done acc tm h => exact ⟨acc, id, step_done hO hC h e⟩
 
 include hO hC in
-theorem inv_run {s : St} {acc : Bool} (h : Inv O C acc s) (evs : List Event) :
-    ∃ acc', (acc = true → acc' = true) ∧ Inv O C acc' (run fixed s evs) := by
-  induction evs generalizing s acc with
-  | nil => exact ⟨acc, id, h⟩
+theorem inv_run {s : St} {acc tm : Bool} (h : Inv O C acc tm s) (evs : List Event) :
+    ∃ acc', (acc = true → acc' = true) ∧ Inv O C acc' (evs.any isTerm || tm) (run fixed s evs) := by
+  induction evs generalizing s acc tm with
+  | nil => exact ⟨acc, id, by simpa [run] using h⟩
   | cons e evs ih =>
     obtain ⟨a1, h1, i1⟩ := inv_step hO hC h e
     obtain ⟨a2, h2, i2⟩ := ih i1
-    exact ⟨a2, fun x => h2 (h1 x), by simpa [run] using i2⟩
+    refine ⟨a2, fun x => h2 (h1 x), ?_⟩
+    have e : (evs.any isTerm || (isTerm e || tm)) = ((e :: evs).any isTerm || tm) := by
+      simp only [List.any_cons]
+      cases isTerm e <;> cases evs.any isTerm <;> cases tm <;> rfl
+    simpa [run, e] using i2
 
 end
 
